@@ -390,7 +390,7 @@ func dependencyKind(t types.Type) string {
 	switch ir.NamedTypeID(t) {
 	case "crypto.Signer":
 		return "signer"
-	case "github.com/spf13/afero.Fs", "github.com/spf13/afero.File", "io/fs.File", "io/fs.FS":
+	case "github.com/spf13/afero.Fs", "github.com/spf13/afero.File", "io/fs.File", "io/fs.FS", M + "/efivarfs.EFIVars":
 		return "filesystem"
 	case "io.ReaderAt":
 		return "image reader"
